@@ -175,12 +175,14 @@ fn gen_limit(seed: u64, which: u64) -> Value {
             let n = if which % 4 == 0 { 24_000 } else { 18_000 };
             let st = StoreDef {
                 n,
-                common: vec![PDef { name: "v".into(), kind: PKind::Array { prefix: 0, store: 0 }, col: Col::Seq }, PDef { name: "id".into(), kind: PKind::UInt, col: Col::Seq }],
+                // (the representable one ends on duplicates of earlier values: the store then holds n - n/16 distinct values)
+                common: vec![PDef { name: "v".into(), kind: PKind::Array { prefix: 0, store: 0 }, col: if which % 4 == 0 { Col::Seq } else { Col::SeqDup } }, PDef { name: "id".into(), kind: PKind::UInt, col: Col::Seq }],
                 variants: vec![],
                 sort: None,
                 unique_keys: false,
             };
-            let tail = 10 + 3 + 3 * (n - 1);
+            let distinct = if which % 4 == 0 { n } else { n - n / 16 };
+            let tail = 10 + 3 + 3 * (distinct - 1);
             (
                 DirCase { seed: rng.next(), vstores: vec![true], stores: vec![st], indexes: vec![IndexDef { name: "index0".into(), store: 0, offset: 0, count: n as u32 }], defer: 0, free: 0 },
                 if tail > 65535 { "unrepresentable" } else { "representable" },
